@@ -28,11 +28,16 @@ import (
 
 // VerifNewShardManager builds the client's shard manager (with the real shard strategy) without
 // connecting it to a server. The returned function applies one shard-assignments message the way
-// the receive loop does (namespace lookup, conversion, update). Build tag verif only.
-func VerifNewShardManager(namespace string) (ShardManager, func(*proto.ShardAssignments) error) {
+// the receive loop does (namespace lookup, conversion, update). A non-nil hashFunc replaces the
+// key hash of the strategy (to place keys exactly on range boundaries). Build tag verif only.
+func VerifNewShardManager(namespace string, hashFunc func(string) uint32) (ShardManager, func(*proto.ShardAssignments) error) {
+	strategy := NewShardStrategy()
+	if hashFunc != nil {
+		strategy = &shardStrategyImpl{hashFunc: hashFunc}
+	}
 	sm := &shardManagerImpl{
 		namespace:     namespace,
-		shardStrategy: NewShardStrategy(),
+		shardStrategy: strategy,
 		shards:        make(map[int64]Shard),
 		logger:        slog.With(slog.String("component", "shardManager")),
 	}
@@ -51,4 +56,19 @@ func VerifNewShardManager(namespace string) (ShardManager, func(*proto.ShardAssi
 		return nil
 	}
 	return sm, apply
+}
+
+// VerifShardTable returns the shards (id, min, max) the manager currently routes to.
+func VerifShardTable(m ShardManager) [][3]int64 {
+	sm, ok := m.(*shardManagerImpl)
+	if !ok {
+		return nil
+	}
+	sm.RLock()
+	defer sm.RUnlock()
+	res := make([][3]int64, 0, len(sm.shards))
+	for _, shard := range sm.shards {
+		res = append(res, [3]int64{shard.Id, int64(shard.HashRange.MinInclusive), int64(shard.HashRange.MaxInclusive)})
+	}
+	return res
 }
